@@ -25,27 +25,31 @@ def gen(rng, tier):
     for _ in range(n):
         ty = TG.rand_type(rng, 1 + rng.below(3 if tier == "quick" else 4), top=True)
         mode = rng.wpick([(5, "valid"), (3, "validator"), (2, "other-fault"), (2, "prefilled")])
-        fault = None
-        if mode == "validator":
-            fault = ("validator", {})
-        elif mode == "other-fault":
-            fault = (rng.pick(["wrong-type", "out-of-range", "unparsable", "not-object", "array-size"]), {})
-        cfg = TG.config_for(rng, ty, 3, fault)
         old = None
         if mode == "prefilled" or rng.chance(0.3):
             old = TG.rand_value(rng, ty)
+        cfg = TG.config_for(rng, ty, 3, None)
+        valid, fault = None, None
+        if mode in ("validator", "other-fault"):
+            # one fault injected into a configuration; the fault-free twin lets the model tell whether it is the only one
+            pts = [p for p in TG.fault_points(ty, cfg) if (p[1] == "validator") == (mode == "validator")]
+            if pts:
+                path, kind, repl = rng.pick(pts)
+                valid, cfg, fault = cfg, TG.replace_at(cfg, path, repl), kind
         uopts = []
         if rng.chance(0.15):
             uopts.append(opt(rng.pick(["Append", "Prepend", "Replace", "ReplaceArr"])))
         has_v = "!" in TG.type_sig(ty, 4)
         c = {"k": "unpack", "ty": ty, "old": old, "from": cfg, "copts": [], "uopts": uopts,
-             "strictErr": bool(fault is not None and "path" in fault[1] and not TG.has_inline_map(ty) and old is None),
-             "_tag": "unpack/" + mode, "_nt": has_v,
-             "_sig": "%s|%s|%s|%s" % (TG.type_sig(ty), mode, "old" if old else "zero", ",".join(k for k, _ in cfg["m"]))}
+             "strictErr": bool(fault is not None and not TG.has_inline_map(ty) and old is None),
+             "_tag": "unpack/" + mode + ("/" + fault if fault else ""), "_nt": has_v,
+             "_sig": "%s|%s|%s|%s|%s" % (TG.type_sig(ty), mode, fault, "old" if old else "zero", ",".join(k for k, _ in cfg["m"]))}
+        if valid is not None:
+            c["validFrom"] = valid
         yield c
 
 
-normalize_result = TG.normalize_unpack_result
+normalize_pair = TG.normalize_unpack_pair
 
 
 def nontrivial(case, impl):
